@@ -2094,6 +2094,21 @@ bool SPxLPBase<R>::readMPS(
    cset.memRemax(Init_NZos);
    cset.reMax(Init_Cols);
 
+   // release the name sets created here on every way out, also when the reader throws on a damaged stream
+   struct NameSetGuard
+   {
+      NameSet* ptr;
+      bool owned;
+      ~NameSetGuard()
+      {
+         if(owned && ptr != nullptr)
+         {
+            ptr->~NameSet();
+            spx_free(ptr);
+         }
+      }
+   } cnamesGuard{cnames, p_cnames == nullptr}, rnamesGuard{rnames, p_rnames == nullptr};
+
    MPSInput mps(p_input);
 
    MPSreadName(mps, spxout);
@@ -2140,18 +2155,6 @@ bool SPxLPBase<R>::readMPS(
       addedCols(cset.num());
 
       assert(isConsistent());
-   }
-
-   if(p_cnames == nullptr)
-   {
-      cnames->~NameSet();
-      spx_free(cnames);
-   }
-
-   if(p_rnames == nullptr)
-   {
-      rnames->~NameSet();
-      spx_free(rnames);
    }
 
    return !mps.hasError();
